@@ -219,6 +219,8 @@ func (C *Contracts) loadContractFile(path string, defaultPkg string) error {
 				switch {
 				case prev.Kind == "extern" && word == "func":
 					// replace below
+				case prev.Kind == "extern" && word == "extern" && prev.Pkg == "*" && pkg != "*":
+					// a package's own reading of an external function replaces the shared one from /verif/specs
 				case prev.Kind == "func" && word == "extern":
 					cur, curMon, inSpec = &FuncContract{Kind: word, Pkg: pkg, Loops: map[int]*LoopSpec{}, Key: fc.Key}, nil, false // parsed and dropped
 					continue
